@@ -199,7 +199,9 @@ def tlc(spec_dir, module, cfg, work, tag, workers=16, extra=None, env=None, time
         for f in os.listdir(root):
             if f.endswith(".tla") or f.endswith(".cfg"):
                 shutil.copy(os.path.join(root, f), d)
-    cmd = ["java", "-Xmx" + heap, "-Xss512m", "-XX:+UseParallelGC"]
+    jt = os.path.join(d, "jtmp")
+    os.makedirs(jt, exist_ok=True)      # TLC unpacks its standard modules into java.io.tmpdir and leaves them there
+    cmd = ["java", "-Xmx" + heap, "-Xss512m", "-XX:+UseParallelGC", "-Djava.io.tmpdir=" + jt]
     e = dict(os.environ)
     if env:
         e.update(env)
